@@ -181,3 +181,87 @@ fn c13_array_alias() {
 // O13.4 (strings indexed / measured / modified by character) is NOT decided: `str::chars().count()`, `.nth()`,
 // `char_indices()` and `String::replace_range` do not finish in CBMC even on fully concrete two-character
 // texts (> 200 s each, measured), and Verus has no model of these iterator adapters. See DESIGN.md 3.3.
+
+// ------------------------------------------------------------------------------------------
+// C02 / C12  the unchecked helpers of the machine (assumed contracts of contracts/verus/prelude_vm.rs)
+// ------------------------------------------------------------------------------------------
+fn vm_with(code: Vec<u8>, stack: Vec<Object>, ip: usize, bp: u16) -> VM {
+    VM { stack, globals: Vec::new(), frames: vec![Frame::new(0, 0)], instructions: code, ip, bp }
+}
+
+/// O02.h1  read_u8: requires ip < code.len()  ensures value == code[ip], ip' == ip+1, nothing else changes
+#[kani::proof]
+#[kani::unwind(6)]
+fn c02_read_u8() {
+    let code: [u8; 4] = kani::any();
+    let ip: usize = kani::any();
+    kani::assume(ip < 4);
+    kani::cover!(ip == 3);
+    let mut vm = ManuallyDrop::new(vm_with(code.to_vec(), vec![Object::null()], ip, 0));
+    let v = vm.read_u8();
+    assert!(v == code[ip]);
+    assert!(vm.ip == ip + 1 && vm.bp == 0 && vm.stack.len() == 1 && vm.frames.len() == 1 && vm.instructions.len() == 4);
+    assert!(vm.instructions[0] == code[0] && vm.instructions[3] == code[3]);
+}
+
+/// O02.h2  read_u16: requires ip+2 <= code.len()  ensures value == code[ip] + 256*code[ip+1] (little endian,
+/// the inverse of Compiler::emit_u16, O02.emit), ip' == ip+2
+#[kani::proof]
+#[kani::unwind(6)]
+fn c02_read_u16() {
+    let code: [u8; 4] = kani::any();
+    let ip: usize = kani::any();
+    kani::assume(ip <= 2);
+    kani::cover!(ip == 2);
+    let mut vm = ManuallyDrop::new(vm_with(code.to_vec(), vec![], ip, 0));
+    let v = vm.read_u16();
+    assert!(v as u32 == code[ip] as u32 + 256 * code[ip + 1] as u32);
+    assert!(vm.ip == ip + 2 && vm.bp == 0 && vm.stack.len() == 0 && vm.frames.len() == 1 && vm.instructions.len() == 4);
+}
+
+/// O02.h3  pop: requires a non-empty stack  ensures the top element is returned and removed, the rest untouched
+#[kani::proof]
+#[kani::unwind(6)]
+fn c02_pop() {
+    let (a, b, c) = (any_immediate(), any_immediate(), any_immediate());
+    let n: usize = kani::any();
+    kani::assume(n >= 1 && n <= 3);
+    kani::cover!(n == 1);
+    kani::cover!(n == 3);
+    let mut st = vec![a, b, c];
+    st.truncate(n);
+    let mut vm = ManuallyDrop::new(vm_with(vec![0], st, 0, 0));
+    let top = vm.pop();
+    assert!(word(top) == word([a, b, c][n - 1]));
+    assert!(vm.stack.len() == n - 1);
+    if n >= 2 { assert!(word(vm.stack[0]) == word(a)); }
+    if n == 3 { assert!(word(vm.stack[1]) == word(b)); }
+    assert!(vm.ip == 0 && vm.frames.len() == 1);
+}
+
+/// O02.h4  next: requires ip < code.len() and a valid opcode byte (<= 44)  ensures the opcode with that
+/// discriminant, ip' == ip+1
+#[kani::proof]
+#[kani::unwind(6)]
+fn c02_next() {
+    let b: u8 = kani::any();
+    kani::assume(b <= 44);
+    kani::cover!(b == 44);
+    let mut vm = ManuallyDrop::new(vm_with(vec![b, 0], vec![], 0, 0));
+    let op = vm.next();
+    assert!(op as u8 == b);
+    assert!(vm.ip == 1);
+}
+
+/// O02.cast  the `as` casts replaced by helpers in the VM units (R3) have the helpers' contracts
+#[kani::proof]
+#[kani::unwind(2)]
+fn c02_cast_contracts() {
+    let x: usize = kani::any();
+    if x <= 0xFFFF { assert!((x as u16) as usize == x); }
+    let y: u16 = kani::any();
+    assert!((y as usize) as u16 == y && (y as usize) <= 0xFFFF);
+    let z: u8 = kani::any();
+    assert!((z as usize) as u8 == z);
+    kani::cover!(x == 0xFFFF);
+}
